@@ -17,6 +17,7 @@ import (
 	"fmt"
 	"io"
 	"log"
+	"os"
 	"strings"
 
 	"github.com/imroc/req/v3/verifharness/hk"
@@ -32,7 +33,198 @@ func runC08(r *hk.Run) {
 	r.ShardSize = 60
 	r.Rule = "scenario (stack x fresh/re-used connection x TLS x upload x bodiless/body response x auto/manual body read x transparent retry) x injection kind (cancel, manual context deadline, context.WithTimeout, Client.Timeout, ResponseHeaderTimeout) x event index after which the peer stalls; plus racy injections fired together with an event. Non-trivial: the injection hits a request that is in flight (not before the call, not after the exchange completed). Distinct by (scenario, kind, position, racy)."
 	rng := hk.NewRand(r.Seed)
-	genH1(r, rng.Fork())
+	if os.Getenv("C08_ONLY") == "" || os.Getenv("C08_ONLY") == "h1" {
+		genH1(r, rng.Fork())
+	}
+	if os.Getenv("C08_ONLY") == "" || os.Getenv("C08_ONLY") == "retry" {
+		genRetry(r)
+	}
+	if os.Getenv("C08_ONLY") == "" || os.Getenv("C08_ONLY") == "h2" {
+		genH2(r, rng.Fork())
+	}
+}
+
+func genH2(r *hk.Run, rng *hk.Rand) {
+	specs := []h2spec{
+		{Name: "fresh-get"},
+		{Name: "fresh-get-bodiless", Bodiless: true},
+		{Name: "fresh-upload", Upload: true},
+		{Name: "reuse-get", Reuse: true},
+		{Name: "reuse-upload-bodiless", Reuse: true, Upload: true, Bodiless: true},
+	}
+	for _, sp := range specs {
+		steps := h2steps(sp)
+		n := len(steps)
+		recordH2(r, runH2(sp, "none", n, false))
+		for pos := 0; pos <= n; pos++ {
+			kinds := []string{"cancel", "deadline"}
+			if !r.Quick() || (pos+int(r.Seed))%3 == 0 {
+				kinds = append(kinds, "deadline-timer")
+			}
+			if !r.Quick() || (pos+int(r.Seed))%3 == 1 {
+				kinds = append(kinds, "client-timeout")
+			}
+			for _, k := range kinds {
+				recordH2(r, runH2(sp, k, pos, false))
+			}
+		}
+		for pos := 1; pos <= n; pos++ {
+			if len(steps[pos-1].labels) == 0 || (r.Quick() && rng.Intn(3) != 0) {
+				continue
+			}
+			recordH2(r, runH2(sp, "cancel", pos, true))
+		}
+	}
+}
+
+func recordH2(r *hk.Run, o h2obs) {
+	// the oracle is the same as for HTTP/1.1
+	judge(r, obs{Stack: "h2", Spec: h1spec{Name: o.Spec.Name}, Kind: o.Kind, StepName: o.StepName, Racy: o.Racy,
+		Call: o.Call, CallErr: o.CallErr, Body: o.Body, BodyErr: o.BodyErr, Returned: o.Returned, Quiesced: o.Quiesced,
+		Stuck: o.Stuck, Leaked: o.Leaked, ReqBody: o.ReqBody, ReqBodyClosed: o.ReqBodyClosed, ReadsAfter: o.ReadsAfter,
+		FollowOK: o.FollowOK, FollowErr: o.FollowErr, Complete: o.Complete, Harness: o.Harness})
+	if o.Harness == "" && o.Returned && o.ConnClosed {
+		r.Fail(hk.Failure{Sig: fmt.Sprintf("conn-closed:h2:%s:%s:after=%s", o.Spec.Name, o.Kind, o.StepName),
+			What: "the HTTP/2 connection, which other requests share, was closed because one request was cancelled", Input: o})
+	}
+	r.Count("h2:" + o.Kind)
+	r.Count("h2:scenario:" + o.Spec.Name)
+	r.Count(fmt.Sprintf("h2:call=%s,body=%s,rst=%d", o.Call, o.Body, o.Rst))
+	key := fmt.Sprintf("h2|%s|%s|%d|%v", o.Spec.Name, o.Kind, o.Pos, o.Racy)
+	coq := ""
+	if o.Harness == "" && o.Returned {
+		coq = emitH2(o)
+	}
+	r.Add(hk.Case{Coq: coq, Desc: map[string]interface{}{"kind": "h2", "obs": o}}, key, o.Pos > 0 && !o.Complete && o.Kind != "none")
+}
+
+func emitH2(o h2obs) string {
+	if o.Kind == "client-timeout" {
+		if o.Call == "cause:deadline" {
+			o.Call = "cause:timeout"
+		}
+		if o.Body == "cause:deadline" {
+			o.Body = "cause:timeout"
+		}
+	}
+	var call, body string
+	if o.Call == "resp" {
+		call = "OResp"
+	} else if e, ok := coqErr(o.Call); ok {
+		call = "(OErr " + e + ")"
+	} else {
+		return ""
+	}
+	switch o.Body {
+	case "none":
+		body = "ONone"
+	case "eof":
+		body = "OEof"
+	default:
+		if e, ok := coqErr(o.Body); ok {
+			body = "(OBErr " + e + ")"
+		} else {
+			return ""
+		}
+	}
+	rst := "None"
+	switch o.Rst {
+	case -1:
+	case 8:
+		rst = "(Some RstCancel)"
+	case 0:
+		rst = "(Some RstNoError)"
+	default:
+		return ""
+	}
+	inj := []string{}
+	if cause2(o.Kind) != "" {
+		inj = []string{cause2(o.Kind)}
+	}
+	ob := fmt.Sprintf("(mkObs2 %s %s %s %s %s)", call, body, rst, hk.CoqBool(o.ReqBody), hk.CoqBool(o.ReqBodyClosed))
+	return fmt.Sprintf("H2Case %s %s %s %s %s %s", hk.CoqBool(o.Spec.Upload), hk.CoqBool(realTimer(o.Kind)),
+		coqLabels(o.Pre), coqLabels(o.RacyLab), coqLabels(inj), ob)
+}
+
+func genRetry(r *hk.Run) {
+	specs := []retrySpec{
+		{Name: "sleep-after-1", Max: 3, LongWait: true, Attempts: 1, InSleep: true},
+		{Name: "sleep-after-2-unlimited", Max: -1, LongWait: true, Attempts: 2, InSleep: true},
+		{Name: "attempt-2-in-flight", Max: 3, Attempts: 1},
+		{Name: "attempt-3-in-flight-unlimited", Max: -1, Attempts: 2},
+		{Name: "first-attempt-in-flight", Max: 2, Attempts: 0},
+	}
+	for _, sp := range specs {
+		for _, kind := range []string{"cancel", "deadline"} {
+			o := runRetry(sp, kind)
+			judgeRetry(r, o)
+			r.Count("retry:" + kind)
+			r.Count("retry:call=" + o.Call)
+			coq := ""
+			if o.Harness == "" && o.Returned {
+				coq = emitRetry(o)
+			}
+			r.Add(hk.Case{Coq: coq, Desc: map[string]interface{}{"kind": "retry", "obs": o}},
+				fmt.Sprintf("retry|%s|%s", sp.Name, kind), true)
+		}
+	}
+}
+
+func emitRetry(o retryObs) string {
+	e, ok := coqErr(o.Call)
+	call := "(OErr " + e + ")"
+	if !ok {
+		if strings.HasPrefix(o.Call, "status:") {
+			call = "OResp"
+		} else {
+			return ""
+		}
+	}
+	max := "None"
+	if o.Spec.Max >= 0 {
+		max = "(Some " + hk.CoqNat(o.Spec.Max) + ")"
+	}
+	var ls []string
+	for i := 0; i < o.Spec.Attempts; i++ {
+		if i > 0 {
+			ls = append(ls, "RSleepDone")
+		}
+		ls = append(ls, "RAttemptDone ARetryable")
+	}
+	if !o.Spec.InSleep && o.Spec.Attempts > 0 {
+		ls = append(ls, "RSleepDone")
+	}
+	c := map[string]string{"cancel": "CCanceled", "deadline": "CDeadline"}[o.Kind]
+	ls = append(ls, "RCancel "+c)
+	return fmt.Sprintf("RetryCase %s %s %s %s", max, coqLabels(ls), call, hk.CoqNat(int(o.SeenEnd)))
+}
+
+func judgeRetry(r *hk.Run, o retryObs) {
+	where := fmt.Sprintf("retry:%s:%s", o.Spec.Name, o.Kind)
+	fail := func(sig, what string) {
+		r.Fail(hk.Failure{Sig: sig + ":" + where, What: what, Input: o})
+	}
+	if o.Harness != "" {
+		fail("harness", "the scripted scenario could not be played: "+o.Harness)
+		return
+	}
+	if !o.Returned {
+		fail("hang", fmt.Sprintf("the call did not return within %v of the injection (it ended as %q after %d attempts)", returnBound, o.Call, o.SeenEnd))
+	} else {
+		want := map[string]string{"cancel": "cause:canceled", "deadline": "cause:deadline"}[o.Kind]
+		if o.Call != want {
+			fail("wrong-error", "the call did not fail with an error identifying the cancellation: "+o.Call+" "+o.CallErr)
+		}
+	}
+	if o.SeenEnd > o.SeenAt {
+		fail("retry-after-cancel", fmt.Sprintf("%d further attempt(s) reached the peer after the context had ended", o.SeenEnd-o.SeenAt))
+	}
+	if len(o.Leaked) > 0 {
+		fail("leak", "library goroutines alive afterwards: "+strings.Join(o.Leaked, " | "))
+	}
+	if !o.FollowOK {
+		fail("follow-up", "a follow-up request on the same client failed: "+o.FollowEr)
+	}
 }
 
 func coqLabels(ls []string) string {
